@@ -22,8 +22,6 @@
 -/
 import CatVerif.Proofs.Args
 import CatVerif.Properties.C02
-import CatVerif.Proofs.Steps.Collect
-import CatVerif.Proofs.Steps.Loops
 import CatVerif.Proofs.Text
 namespace Cat
 open St
@@ -253,36 +251,6 @@ theorem C06_print_terminates (D : Desc) (s : St) (f : Fsm) (x : List Byte) (h : 
 example : ArgsOk 4 [65, 0, 9, 9] 1 [65] := ⟨rfl, rfl, rfl, by decide, by decide⟩
 example : ArgsOk 4 (([65, 0, 9, 9] : List Byte).set 1 66 |>.set 2 0) 2 ([65] ++ [66]) :=
   ArgsOk.push (cap := 4) (buf := [65, 0, 9, 9]) (n := 1) (args := [65]) ⟨rfl, rfl, rfl, by decide, by decide⟩ 66 (by decide)
-
-/-- argument collection — every byte after `=` is stored unchanged and NUL-terminated while it and
-its terminator fit, a line that does not fit goes to the ERROR state, `?` as the very first byte
-asks for TEST, LF hands the text to the parsers or to the write handler — is, in the model, the text
-regenerated from `parse_command_args` of the source (translator item T11); the model's ghost check
-"a command is selected" sits between the read and the generated body -/
-theorem C06_collection_generated (D : Desc) (s : St) (i : SvcIn) :
-    parseCommandArgs D s i =
-      (let r := readCmdChar s i
-       if !r.2 then (r.1, Gen.CAT_STATUS_OK)
-       else (Gen.parse_command_args_body D (r.1.chkUb r.1.cmd.isSome), Gen.CAT_STATUS_BUSY)) :=
-  parseCommandArgs_generated D s i
-
-/-- what each handler of the command machine and of the unsolicited machine is called with — the write handler with the
-command buffer, `length` and `index`; the run handler with the command alone; read and test handlers with their own
-machine's buffer, position and capacity — is re-recognised in the call expressions of `process_write_loop`,
-`process_run_loop`, `call_cmd_read_by_fsm` and `call_cmd_test_by_fsm` on every run (translator item T19) -/
-theorem C06_handler_calls_generated (D : Desc) (s : St) (f : Fsm) (i : SvcIn) :
-    processWriteLoop D s i = Gen.process_write_loop_fn D s i ∧ processRunLoop D s i = Gen.process_run_loop_fn D s i ∧
-    processReadLoop D s f i = Gen.process_read_loop_fn D s f i ∧ processTestLoop D s f i = Gen.process_test_loop_fn D s f i :=
-  ⟨rfl, rfl, rfl, rfl⟩
-
-/-- the counters this property's theorems keep as unbounded natural numbers (`buf_size`, `unsolicited_buf_size`, `length`, `position`) are declared
-`size_t` in `cat.h` — 64 bits on the target, so they cannot wrap on any buffer, table or line that exists; the widths
-are read from the struct declarations on every run (translator item T21) -/
-theorem C06_counters_unbounded :
-    Gen.width_desc_buf_size = 64 ∧
-    Gen.width_desc_unsolicited_buf_size = 64 ∧
-    Gen.width_obj_length = 64 ∧
-    Gen.width_obj_position = 64 := by decide
 
 /-- **exact text, first round, handler-only READ** (partial: commands whose variables are formatted first go through
 `format_read_args`, where only "the cursor stands on a NUL inside the region" is proved): when READ of a command without
